@@ -258,6 +258,11 @@ const Prelude = `
 (define-fun iface.nil () Iface (mk-iface 0 box.nil))
 (define-fun slice.nil () Slice (mk-slice null 0 0 0))
 (declare-const str.empty Str)
+; the byte-wise order of Go strings as an abstract strict total order (its definition by bytes is not modelled)
+(declare-fun str.lt (Str Str) Bool)
+(assert (forall ((a Str) (b Str)) (! (=> (str.lt a b) (and (not (str.lt b a)) (not (= a b)))) :pattern ((str.lt a b)))))
+(assert (forall ((a Str) (b Str)) (! (or (str.lt a b) (= a b) (str.lt b a)) :pattern ((str.lt a b)))))
+(assert (forall ((a Str) (b Str) (c Str)) (! (=> (and (str.lt a b) (str.lt b c)) (str.lt a c)) :pattern ((str.lt a b) (str.lt b c)))))
 (assert (= (slen str.empty) 0))
 (assert (forall ((s Str)) (! (<= 0 (slen s)) :pattern ((slen s)))))
 (assert (forall ((s Str)) (! (=> (= (slen s) 0) (= s str.empty)) :pattern ((slen s)))))
